@@ -1197,23 +1197,25 @@ def core_data_units(ctx, mir, stats):
     se = SymExec(f, stats, loop_bound=1, max_paths=20000).run()
     obs = []
     for p in se.finished + [a[0] for a in se.asserts]:
-        for i, ev in calls_on(p.events, r"extend_from_slice$|Vec::<u16>::push$"):
-            ln = [e for k, e in calls_on(p.events[:i], r"Vec::<u16>::len$")]
-            un = [e for k, e in calls_on(p.events[:i], r"len_utf16$")]
-            if not ln or not un:
-                continue
-            L = None; N = None
+        for i, ev in calls_on(p.events, r"Vec::<u16>::extend_from_slice$|Vec::<u16>::push$"):
+            # units appended by this call
+            if ev[2].endswith("push"):
+                N = z3.BitVecVal(1, 64)
+            else:
+                src = resolve_source(p.events, i, ev[4][1])
+                m = re.search(r"\(\*(_\d+)\)|(_\d+)", src)
+                loc = (m.group(1) or m.group(2)) if m else None
+                N = p.env.get("slice_len(%s)" % loc) if loc else None
+            L = None
             for e in p.events[:i]:
                 if e[0] == "callret" and re.search(r"Vec::<u16>::len$", e[2]):
                     L = e[3]
-                if e[0] == "callret" and re.search(r"len_utf16$", e[2]):
-                    N = e[3]
             if L is None or N is None:
                 continue
             verdict, mdl, smt = se.check(p, [z3.UGT(L + N, z3.BitVecVal(15, 64))], "client name units")
             obs.append({"id": "client_core_data:name<=15-units", "ok": verdict == "unsat", "functions": [f.name],
                         "detail": "code units are appended to clientName only while the total stays <= 15 (the 16th unit is the null terminator)" if verdict == "unsat" else
-                        "clientName can receive %s units: no room for the terminator" % mdl, "where": f.name, "path": p.trace, "needs_native": True,
+                        "clientName can grow past 15 units (%s): no room for the terminator" % mdl, "where": f.name, "path": p.trace, "needs_native": True,
                         "native": None if verdict == "unsat" else CORE_DATA_NATIVE})
     if not obs:
         obs.append({"id": "client_core_data:name<=15-units", "ok": True, "functions": [f.name], "detail": "no unit-appending loop of the recognised form (not applicable)"})
